@@ -620,6 +620,25 @@ func (d *Driver) writeFiles(j *job, outs interface{}) interface{} {
 			d.fmu.Unlock()
 			continue
 		}
+		if strings.HasSuffix(f.Name, ".ind") {
+			// the output names the file a.dat INSIDE the directory that is the same stage's
+			// output d (a directory output and one of its files returned side by side)
+			dirRef := FileRef{Producer: f.Producer, Name: "d.d", Chunk: f.Chunk}
+			dp := path.Join(j.vj.FilesPath, "d.d")
+			if sp, ok := pm["d"].(string); ok && sp != "" {
+				dp = sp // the path mrp proposed for the output d
+			}
+			os.MkdirAll(path.Join(dp, "x"), 0755)
+			p = path.Join(dp, "a.dat")
+			writeFile(p, fileContent(dirRef.Key()))
+			d.fmu.Lock()
+			d.filePath[f.Key()] = canon(p)
+			d.fileJob[f.Key()] = j.key
+			d.aliasOf[f.Key()] = dirRef.Key()
+			d.fmu.Unlock()
+			d.tr.Emit("FileWritten", "job", j.key, "file", f.Key(), "path", d.rel(p))
+			continue
+		}
 		if strings.HasSuffix(f.Name, ".lnk2") {
 			// link -> sub/link -> deep/target, all relative
 			dir := path.Dir(p)
